@@ -215,3 +215,39 @@ package nasType
 //@   loop 0 invariant BufOK(buf)
 //@   loop 0 decreases buflen(buf)
 //@ end
+
+// ---- C15 lemmas (functions of verif_lemmas.go) ----
+// Round trips are decided by the Go comparison inside the lemma function (result ok); the clauses on b state the
+// layout of 9.11.4.13 / 9.11.4.12: rule identifier, 2-octet length, operation | DQR | number of filters, per filter
+// direction | identifier and length, components as type octet followed by the fixed-size value, precedence,
+// segregation | QFI; description QFI, operation << 5, E | number of parameters, parameters as identifier, length, value.
+//@ func verifLemmaRuleComponents(id, prec, qfi, pfid, dqr, seg, dir, a4r, a4l, proto, lport, rport, llo, lhi, rlo, rhi, spi, tos, tosMask, fl, dmac, smac, cvid, svid, cpcp, spcp, et) (ok, b, err)
+//@   requires qfi < 64 && pfid < 16 && dir < 16 && fl < 0x100000
+//@   ensures err == nil && ok
+//@   ensures len(b) == 84 && b[0] == id && b[1] == 0 && b[2] == 81 && b[3] == uint8(32) | ite(dqr, uint8(16), uint8(0)) | uint8(1) && b[4] == (uint8(dir) << 4) | pfid && b[5] == 76
+//@   ensures b[6] == 0x01 && b[7] == 0x10 && b[16] == 0x11 && b[25] == 0x30 && b[27] == 0x40 && b[30] == 0x41 && b[35] == 0x50 && b[38] == 0x51 && b[43] == 0x60 && b[48] == 0x70 && b[51] == 0x80 && b[55] == 0x81 && b[62] == 0x82 && b[69] == 0x83 && b[72] == 0x84 && b[75] == 0x85 && b[77] == 0x86 && b[79] == 0x87
+//@   ensures b[26] == proto && b[28] == uint8(lport >> 8) && b[29] == uint8(lport) && b[44] == uint8(spi >> 24) && b[47] == uint8(spi) && b[52] == uint8(fl >> 16) && b[53] == uint8(fl >> 8) && b[54] == uint8(fl) && b[82] == prec && b[83] == ite(seg, uint8(64), uint8(0)) | qfi
+//@   ensures forall(k, 0, 8, b[8+k] == a4r[k] && b[17+k] == a4l[k]) && forall(k, 0, 6, b[56+k] == dmac[k] && b[63+k] == smac[k])
+//@ end
+
+//@ func verifLemmaRuleOperations(op, id0, id1, prec, qfi, pf0, pf1, dqr, seg, port) (ok, err)
+//@   requires 1 <= op && op <= 6 && qfi < 64 && pf0 < 16 && pf1 < 16
+//@   ensures err == nil && ok
+//@ end
+
+//@ define KnownComp(t) := ((t) == 0x01 || (t) == 0x10 || (t) == 0x11 || (t) == 0x30 || (t) == 0x40 || (t) == 0x41 || (t) == 0x50 || (t) == 0x51 || (t) == 0x60 || (t) == 0x70 || ((t) >= 0x80 && (t) <= 0x87))
+//@ func verifLemmaUnknownComponent(t, rest) (err)
+//@   ensures implies(!KnownComp(t), err != nil)
+//@ end
+
+//@ func verifLemmaFlowDescs(qfi0, qfi1, op0, op1, fiveQI, u1, u2, u3, u4, v1, v2, v3, v4, win, ebi) (ok, b, err)
+//@   requires 1 <= op0 && op0 <= 3 && 1 <= op1 && op1 <= 3
+//@   ensures err == nil && ok
+//@   ensures len(b) == 36 && b[0] == qfi0 && b[1] == uint8(op0) << 5 && b[2] == 0x47 && b[3] == 1 && b[4] == 1 && b[5] == fiveQI
+//@   ensures b[6] == 2 && b[7] == 3 && b[8] == uint8(u1) && b[9] == uint8(v1 >> 8) && b[10] == uint8(v1) && b[11] == 3 && b[12] == 3 && b[16] == 4 && b[21] == 5 && b[26] == 6 && b[27] == 2 && b[28] == uint8(win >> 8) && b[29] == uint8(win) && b[30] == 7 && b[31] == 1 && b[32] == ebi
+//@   ensures b[33] == qfi1 && b[34] == uint8(op1) << 5 && b[35] == 0
+//@ end
+
+//@ func verifLemmaUnknownParameter(qfi, id, l, rest) (err)
+//@   ensures implies(id < 1 || id > 7, err != nil)
+//@ end
